@@ -576,56 +576,10 @@ pub fn run_eval(w: &mut World, plan: &Plan, sched: &Sched, opts: &Opts) -> EvalO
         }
         // ---- C20 probes
         if opts.probes {
-            let all_ids: Vec<String> = ids.keys().cloned().collect();
-            let mut before = observable(&mut g, &ids);
-            for jid in all_ids.iter() {
-                let mut tries: Vec<&str> = vec![];
-                if !ready.contains(jid) {
-                    tries.push("start-not-offered");
-                }
-                if !my_running.contains(jid) {
-                    tries.push("success-not-running");
-                    tries.push("failure-not-running");
-                }
-                if !cleanup.contains(jid) {
-                    tries.push("cleanup-not-offered");
-                }
-                for what in tries {
-                    let r = match what {
-                        "start-not-offered" => g.event_now_running(jid),
-                        "success-not-running" => g.event_job_finished_success(jid, "bogus=0".into()),
-                        "failure-not-running" => g.event_job_finished_failure(jid),
-                        _ => g.event_job_cleanup_done(jid),
-                    };
-                    res.probes_done += 1;
-                    let st = before.0.jobs.iter().find(|x| x.0 == *jid).map(|x| x.1.clone()).unwrap_or_default();
-                    match r {
-                        Err(PPGEvaluatorError::APIError(_)) => {}
-                        other => {
-                            res.v("C20", format!("{}/not-rejected", what), format!("{} in {} -> {:?}", jid, st, other.map_err(|e| stem_of_error(&e).0)));
-                        }
-                    }
-                    let after = observable(&mut g, &ids);
-                    if after != before {
-                        res.v("C20", format!("{}/state-changed", what), format!("{} in {}", jid, st));
-                        before = after;
-                    }
-                    let _ = take_transitions();
-                }
+            probe_round(&mut g, &ids, &ready, &my_running, &cleanup, &mut res, "");
+            if res.engine_error.is_some() {
+                break;
             }
-            let r = g.event_startup();
-            res.probes_done += 1;
-            match r {
-                Err(PPGEvaluatorError::APIError(_)) => {}
-                other => {
-                    res.v("C20", "startup-twice/not-rejected", format!("{:?}", other.map_err(|e| stem_of_error(&e).0)));
-                }
-            }
-            let after = observable(&mut g, &ids);
-            if after != before {
-                res.v("C20", "startup-twice/state-changed", "");
-            }
-            let _ = take_transitions();
         }
         // ---- choose the next driver action
         let mut actions: Vec<(u8, String)> = vec![];
@@ -789,6 +743,14 @@ pub fn run_eval(w: &mut World, plan: &Plan, sched: &Sched, opts: &Opts) -> EvalO
             break;
         }
     }
+    if opts.probes && res.engine_error.is_none() {
+        // once more in the final state (finished normally or aborted)
+        let _ = g.is_finished();
+        let ready: BTreeSet<String> = g.query_ready_to_run().into_iter().collect();
+        let cleanup: BTreeSet<String> = g.query_ready_for_cleanup().into_iter().collect();
+        let none: BTreeSet<String> = BTreeSet::new();
+        probe_round(&mut g, &ids, &ready, &none, &cleanup, &mut res, "after-finish/");
+    }
     res.nactions = nactions;
     res.noise_hits = noise_hits.get();
     res.comparisons = comparisons.get();
@@ -866,6 +828,68 @@ fn leave_failed_output(w: &mut World, s: usize, j: &str, fail_mode: u8) {
             }
             _ => {}
         }
+    }
+}
+
+
+/// C20: every illegal call on every known job (and a second event_startup) must be
+/// rejected with an API error and leave everything observable unchanged
+fn probe_round(
+    g: &mut Eng,
+    ids: &BTreeMap<String, usize>,
+    ready: &BTreeSet<String>,
+    my_running: &BTreeSet<String>,
+    cleanup: &BTreeSet<String>,
+    res: &mut EvalOut,
+    phase: &str,
+) {
+    use std::panic::{catch_unwind, AssertUnwindSafe};
+    let all_ids: Vec<String> = ids.keys().cloned().collect();
+    let mut before = observable(g, ids);
+    let mut calls: Vec<(&str, Option<String>)> = vec![];
+    for jid in all_ids.iter() {
+        if !ready.contains(jid) {
+            calls.push(("start-not-offered", Some(jid.clone())));
+        }
+        if !my_running.contains(jid) {
+            calls.push(("success-not-running", Some(jid.clone())));
+            calls.push(("failure-not-running", Some(jid.clone())));
+        }
+        if !cleanup.contains(jid) {
+            calls.push(("cleanup-not-offered", Some(jid.clone())));
+        }
+    }
+    calls.push(("startup-twice", None));
+    for (what, jid) in calls {
+        let j = jid.clone().unwrap_or_default();
+        let r = catch_unwind(AssertUnwindSafe(|| match what {
+            "start-not-offered" => g.event_now_running(&j),
+            "success-not-running" => g.event_job_finished_success(&j, "bogus=0".into()),
+            "failure-not-running" => g.event_job_finished_failure(&j),
+            "cleanup-not-offered" => g.event_job_cleanup_done(&j),
+            _ => g.event_startup(),
+        }));
+        res.probes_done += 1;
+        let st = before.0.jobs.iter().find(|x| x.0 == j).map(|x| x.1.clone()).unwrap_or_default();
+        match r {
+            Ok(Err(PPGEvaluatorError::APIError(_))) => {}
+            Ok(other) => {
+                res.v("C20", format!("{}{}/not-rejected", phase, what), format!("{} in {} -> {:?}", j, st, other.map_err(|e| stem_of_error(&e).0)));
+            }
+            Err(_) => {
+                let msg = LAST_PANIC.with(|p| p.borrow().clone());
+                res.v("C20", format!("{}{}/panicked", phase, what), format!("{} in {}: {}", j, st, msg));
+                res.engine_error = Some(format!("panic in illegal call: {}", msg));
+                let _ = take_transitions();
+                return;
+            }
+        }
+        let after = observable(g, ids);
+        if after != before {
+            res.v("C20", format!("{}{}/state-changed", phase, what), format!("{} in {}", j, st));
+            before = after;
+        }
+        let _ = take_transitions();
     }
 }
 
